@@ -61,7 +61,7 @@ class Stats:
         observed, expected, detail = _scrub(observed), _scrub(expected), _scrub(detail)
         k = f"{site}|{kind}"
         self._cls[k] = self._cls.get(k, 0) + 1
-        if self._cls[k] <= 25 and len(self.violations) < self.MAXV:
+        if (self._cls[k] <= 25 or getattr(Stats, "NOCAP", False)) and len(self.violations) < self.MAXV:
             self.violations.append({"site": site, "kind": kind, "case": case, "observed": observed,
                                     "expected": expected, "detail": detail})
 
